@@ -13,6 +13,11 @@
 //! (`unshare -m --propagation private`); `log_pin` bind-mounts a log file onto itself, which makes
 //! rename()/unlink() of that name fail with EBUSY while open-for-append and stat keep working, i.e. exactly
 //! "archive_file's fs::rename fails"; `log_unpin` detaches the mount.  Nothing outlives the namespace.
+//!
+//! Fault injection for the event logger: `ev_tick` / `ev_stop` with "fail": true let the (virtual) time pass while
+//! RLIMIT_FSIZE is 0 and SIGXFSZ is ignored: File::create still works, every write to a regular file fails with
+//! EFBIG -- the path a full disk takes through json_write_to_file.  The limit is restored before the answer is
+//! written; only the event logger task runs in between (current-thread runtime).
 use crate::key_keeper::key::AuthorizationItem;
 use crate::proxy::authorization_rules::{
     AuthorizationRulesForLogging, ComputedAuthorizationItem, ComputedAuthorizationRules,
@@ -123,6 +128,36 @@ fn unpin(path: &Path) -> Result<(), String> {
     Ok(())
 }
 
+/// "disk full" for this process: creating files works, writing to them fails (EFBIG).  Returns the old limit.
+fn fsize_zero(probe_dir: &Path) -> Result<libc::rlimit, String> {
+    let mut old = libc::rlimit { rlim_cur: 0, rlim_max: 0 };
+    unsafe {
+        if libc::getrlimit(libc::RLIMIT_FSIZE, &mut old) != 0 {
+            return Err(format!("getrlimit: {}", std::io::Error::last_os_error()));
+        }
+        libc::signal(libc::SIGXFSZ, libc::SIG_IGN);
+        let zero = libc::rlimit { rlim_cur: 0, rlim_max: old.rlim_max };
+        if libc::setrlimit(libc::RLIMIT_FSIZE, &zero) != 0 {
+            return Err(format!("setrlimit: {}", std::io::Error::last_os_error()));
+        }
+    }
+    // the fault must be effective: a write to a fresh file has to fail
+    let probe = probe_dir.join(".c19_fsize_probe");
+    let wrote = std::fs::File::create(&probe).and_then(|mut f| f.write_all(b"x"));
+    _ = std::fs::remove_file(&probe);
+    if wrote.is_ok() {
+        fsize_restore(&old);
+        return Err("RLIMIT_FSIZE=0 does not make writes fail here".to_string());
+    }
+    Ok(old)
+}
+
+fn fsize_restore(old: &libc::rlimit) {
+    unsafe {
+        libc::setrlimit(libc::RLIMIT_FSIZE, old);
+    }
+}
+
 struct State {
     loggers: HashMap<String, (RollingLogger, PathBuf)>,
     ev_task: Option<tokio::task::JoinHandle<()>>,
@@ -213,7 +248,19 @@ async fn handle(st: &mut State, cmd: &Value) -> Value {
                 Some(d) => d.clone(),
                 None => return json!({"error": "ev_tick before ev_start"}),
             };
+            let fail = cmd["fail"].as_bool().unwrap_or(false);
+            let old = if fail {
+                match fsize_zero(dir.parent().unwrap_or(Path::new("."))) {
+                    Ok(o) => Some(o),
+                    Err(e) => return json!({"error": e}),
+                }
+            } else {
+                None
+            };
             tokio::time::sleep(st.ev_interval * 5 / 2).await;
+            if let Some(o) = &old {
+                fsize_restore(o);
+            }
             json!({"ok": true, "files": listing(&dir)})
         }
         // graceful stop: event_logger::stop(), then virtual time passes until the task has ended (the loop wakes
@@ -222,6 +269,15 @@ async fn handle(st: &mut State, cmd: &Value) -> Value {
             let dir = match &st.ev_dir {
                 Some(d) => d.clone(),
                 None => return json!({"error": "ev_stop before ev_start"}),
+            };
+            let fail = cmd["fail"].as_bool().unwrap_or(false);
+            let old = if fail {
+                match fsize_zero(dir.parent().unwrap_or(Path::new("."))) {
+                    Ok(o) => Some(o),
+                    Err(e) => return json!({"error": e}),
+                }
+            } else {
+                None
             };
             event_logger::stop();
             let finished = match st.ev_task.take() {
@@ -234,6 +290,9 @@ async fn handle(st: &mut State, cmd: &Value) -> Value {
                 },
                 None => true,
             };
+            if let Some(o) = &old {
+                fsize_restore(o);
+            }
             json!({"ok": true, "finished": finished, "files": listing(&dir)})
         }
         // the environment's fault: from now on the rename (and removal) of this file fails, appending works
